@@ -888,7 +888,21 @@ def check_mapping(rnd, b):
         tb = [rnd.choice(['T0', 'T1', 'T2', 'T3']) for _ in range(nto)]
         fid = ['%s#%d' % (x, i + 1) for i, x in enumerate(fb)] if (nfrom > 1 or rnd.random() < 0.3) else list(fb)
         tid = ['%s#%d' % (x, i + 1) for i, x in enumerate(tb)] if (nto > 1 or rnd.random() < 0.3) else list(tb)
-        out += ['', '[ block ]', '[ from ]', 'srcff', '[ to ]', 'dstff', '[ from blocks ]', ' '.join(fid), '[ to blocks ]', ' '.join(tid), '[ mapping ]']
+        out += ['', '[ block ]', '[ from ]', 'srcff', '[ to ]', 'dstff', '[ from blocks ]', ' '.join(fid), '[ to blocks ]', ' '.join(tid)]
+        # extra nodes declared in the file itself: identifier (explicit, or the one used last) + atom name + own attributes
+        extra = []
+        if rnd.random() < 0.5:
+            last = None
+            for j in range(rnd.randint(1, 3)):
+                k_ = rnd.randrange(nfrom) if (last is None or rnd.random() < 0.4) else last
+                explicit = last is None or k_ != last or rnd.random() < 0.4
+                attrs_ = rnd.choice([{}, {'vf_mark': 7}, {'vf_mark': 7, 'vf_other': 'x'}, {'vf_other': 'y'}])
+                nm_ = 'XN%d%d' % (mi, j)
+                extra.append({'k': k_, 'name': nm_, 'attrs': attrs_,
+                              'line': ('%s:%s' % (fid[k_], nm_) if explicit else nm_) + ((' ' + json.dumps(attrs_)) if attrs_ else '')})
+                last = k_
+            out += ['[ from nodes ]'] + [e_['line'] for e_ in extra]
+        out += ['[ mapping ]']
         foff = [0]
         for x in fb:
             foff.append(foff[-1] + len(blocks[x]))
@@ -916,13 +930,21 @@ def check_mapping(rnd, b):
                     last_from, last_to = k, tk
                     lines.append('%s %s%s' % (fspec, tspec, '' if w is None else ' %d' % w))
                     expected.setdefault(foff[k] + pos, {})[toff[tk] + tpos] = 1 if w is None else w
+        extra_expect = {}
+        for j, e_ in enumerate(extra):
+            tk = rnd.randrange(nto)
+            tpos = rnd.randrange(len(blocks[tb[tk]]))
+            lines.append('%s:%s %s:%s' % (fid[e_['k']], e_['name'], tid[tk], blocks[tb[tk]][tpos]))
+            expected[foff[-1] + j] = {toff[tk] + tpos: 1}
+            extra_expect[foff[-1] + j] = dict(e_['attrs'], atomname=e_['name'])
         if not lines:
             atom, tatom = blocks[fb[0]][0], blocks[tb[0]][0]
             lines.append('%s:%s %s:%s' % (fid[0], atom, tid[0], tatom))
             expected[0] = {0: 1}
         out += lines
-        specs.append({'names': tuple(fb), 'mapping': expected, 'n_to': toff[-1],
-                      'from_resids': {foff[k] + pos: k + 1 for k, x in enumerate(fb) for pos in range(len(blocks[x]))}})
+        resids_ = {foff[k] + pos: k + 1 for k, x in enumerate(fb) for pos in range(len(blocks[x]))}
+        resids_.update({foff[-1] + j: e_['k'] + 1 for j, e_ in enumerate(extra)})
+        specs.append({'names': tuple(fb), 'mapping': expected, 'n_to': toff[-1], 'from_resids': resids_, 'extra': extra_expect})
     text = '\n'.join(out) + '\n'
     b.hits += 1
     try:
@@ -946,6 +968,13 @@ def check_mapping(rnd, b):
             if m.block_from.nodes[idx].get('resid') != sp['from_resids'][idx]:
                 return ('mapping/from-block-resid', {'names': sp['names'], 'node': idx, 'observed': m.block_from.nodes[idx].get('resid'),
                                                      'expected': sp['from_resids'][idx]}), text
+        for idx in m.block_from.nodes:
+            d_ = m.block_from.nodes[idx]
+            want_ = sp['extra'].get(idx, {})
+            got_ = {k_: d_[k_] for k_ in ('vf_mark', 'vf_other') if k_ in d_}
+            if got_ != {k_: v_ for k_, v_ in want_.items() if k_ != 'atomname'} or ('atomname' in want_ and d_.get('atomname') != want_['atomname']):
+                return ('mapping/from-node-attributes', {'names': sp['names'], 'node': idx, 'observed': {k_: v_ for k_, v_ in d_.items() if k_ != 'graph'},
+                                                         'declared': want_, 'text': text}), text
         if tuple(m.names) != sp['names'] or m.ff_from != 'srcff' or m.ff_to != 'dstff':
             return ('mapping/header', {'names': m.names, 'ff_from': str(m.ff_from), 'ff_to': str(m.ff_to)}), text
     return None, text
